@@ -29,7 +29,7 @@ ALLOW = [
      'u32 sum of 16-bit words: the receive path only sums quotations that fit the ≤1024-byte packet buffers (≤ 512 words, < 2^26)'),
     (r'checksum::sum_be_words$', 'Overflow:Add', 'Add usize',
      'word counter i ≤ len/2'),
-    (r'checksum::ipv[46]_checksum$', 'Overflow:Add', 'Add u32',
+    (r'within:checksum::ipv[46]_checksum$', 'Overflow:Add', 'Add u32',
      'pseudo-header words (each < 2^17) + length (≤ 1024 on this path) + word sum (< 2^26) cannot reach 2^32'),
     (r'checksum::ipv4_word_sum$', 'Overflow:Add', 'Add u32', 'two 16-bit quantities'),
 ]
@@ -115,6 +115,24 @@ def _lemma(chk, prog):
             chk.ok('L', tag, 'only new/new_view build it; min=%d (the guard itself is C12.O5)' % mn)
 
 
+def _only_within(cg, path, rx, roots):
+    """every call chain (calls, closure creation, closure arguments) from an audit root to `path` passes through a function matching rx"""
+    seen = set()
+    stack = [path]
+    while stack:
+        x = stack.pop()
+        if x in seen:
+            continue
+        seen.add(x)
+        if re.search(rx, short(x)) or re.search(rx, x):
+            continue                      # this chain passes through the context
+        ups = {c for (c, _, _) in cg.sites.get(x, ())}
+        if x in roots or not ups:
+            return False                  # reached a root (or an uncalled function) without passing through it
+        stack.extend(ups)
+    return True
+
+
 def audit_scope(chk, prog, cg, roots, scope, tier, rid_s, rid_t, allow, boundary, inline_depth=3, caller_depth=3, hints=(), invariants=(), inline_filter=None, loop_allow=()):
     A = Audit(prog, inline_depth=inline_depth, caller_depth=caller_depth + (1 if tier == 'thorough' else 0))
     A.cg = cg
@@ -159,6 +177,14 @@ def audit_scope(chk, prog, cg, roots, scope, tier, rid_s, rid_t, allow, boundary
                 continue
             hit = None
             for (rx, kk, dd, reason) in allow:
+                if rx.startswith('within:'):
+                    # the entry names a context rather than the function holding the site: it covers the named function and everything that is
+                    # executed only inside it (helpers and closures every call chain to which passes through it), so that extracting the code
+                    # into a helper of that function changes nothing
+                    ctx_, _, own_ = rx[7:].partition('||')        # 'within:<context>||<pattern of the site's own function>'
+                    if kk == k and (dd == d or re.fullmatch(dd, d)) and (not own_ or re.search(own_, path)) and _only_within(cg, path, ctx_, set(roots)):
+                        hit = ('D3', reason)
+                    continue
                 if (re.search(rx, short(path)) or re.search(rx, path)) and kk == k and (dd == d or re.fullmatch(dd, d)):
                     hit = ('D3', reason)
             for (rx, kk, dd, reason) in boundary:
